@@ -837,6 +837,10 @@ func (x *nsExec) byzSplit(op nsOp) {
 // ---------------------------------------------------------------------------
 // Oracle.
 
+// nsNoCert (development aid for sensitivity runs) switches the two certificate
+// clauses off so that only agreement/contiguity decide.
+var nsNoCert = os.Getenv("NS_NOCERT") != ""
+
 type nsAgreed struct {
 	hash string
 	by   string
@@ -891,7 +895,7 @@ func (x *nsExec) check(o *nsOracle, final bool) {
 				sigs = append(sigs, ch.Proof.Proofs[f.Hash]...)
 			}
 			got, total, signers := x.w.certPower(f.H, f.R, f.Hash, sigs)
-			if !nsIsQuorum(got, total) {
+			if !nsIsQuorum(got, total) && !nsNoCert {
 				x.failf("", "c01-driver-cert", "%s for height %d round %d block %s is backed by verified precommit power %s of %s (signers %v) in the node's own stores", who, f.H, f.R, nsShort([]byte(f.Hash)), got, total, signers)
 			}
 			n.mu.Lock()
@@ -924,7 +928,7 @@ func (x *nsExec) check(o *nsOracle, final bool) {
 			_, _, pcc := x.roundState(n, h, c.Proof.Round)
 			sigs = append(sigs, pcc.BlockSignatures[hash]...)
 			got, total, signers := x.w.certPower(h, c.Proof.Round, hash, sigs)
-			if !nsIsQuorum(got, total) {
+			if !nsIsQuorum(got, total) && !nsNoCert {
 				x.failf("", "c01-store-cert", "node %d committed header store holds height %d round %d block %s backed by verified precommit power %s of %s (signers %v)", n.idx, h, c.Proof.Round, nsShort(c.Header.Hash), got, total, signers)
 			} else {
 				o.certOK[ck] = struct{}{}
@@ -1307,8 +1311,10 @@ func nsGenOps(rt *rapid.T, maxOps int) []nsOp {
 			ops = append(ops, nsOp{K: "restart", A: small("a")})
 		case k < 79:
 			ops = append(ops, nsOp{K: "bprop", A: small("a"), B: small("b"), C: small("c")})
-		case k < 81:
+		case k < 80:
 			ops = append(ops, nsOp{K: "bvote", A: small("a"), B: small("b"), C: small("c")})
+		case k < 81:
+			ops = append(ops, nsOp{K: "bfollow", A: small("a")})
 		case k < 82:
 			ops = append(ops, nsOp{K: "bforge", A: small("a"), B: small("b"), C: small("c")})
 		case k < 85: // withhold the proposal, then time out
